@@ -29,6 +29,7 @@
 -/
 import Ctrmml.Proofs.MdDriver
 import Ctrmml.Proofs.TickStream
+import Ctrmml.Proofs.MdKeys
 import Ctrmml.Spec.Schedule
 namespace Ctrmml.C07
 open Ctrmml Ctrmml.MdDriver Tables
@@ -150,6 +151,75 @@ theorem C07_tick_delivery (song : Song) (root : List Event) (pd : Int → Bool)
   obtain ⟨s', hrun, _⟩ := TickStream.ct_sim_run song root _ n _ _ hrel hlive
   exact TickStream.tickEvents_ct song root pd (TickStream.plainHooks_of song root hplain) n PlayerCh.initPS rfl
     (by unfold TickStream.drumOff; decide) s' _ hrun
+
+/-- **Which ticks an update plays (constant tempo).**  With the tempo `δ` in force and the
+accumulator at `c < 128` before update 0, update `k` plays the `play_tick` calls number
+`N_k … N_{k+1} − 1`, where `N_k = (c + k(δ+1)) div 128` (`C07_tempo_closed_form`); call number
+`j` delivers the items of `perf` that start at tick `j` (`C07_tick_delivery`).  Hence the item
+starting at tick `τ` is handled in update `min {k | N_{k+1} > τ}`. -/
+theorem C07_update_ticks (k c δ : Nat) (hc : c < 128) :
+    (tempoRun (k + 1) c δ).1 = (tempoRun k c δ).1 + (tempoStep (tempoRun k c δ).2 δ).1 ∧
+    (tempoRun (k + 1) c δ).2 = (tempoStep (tempoRun k c δ).2 δ).2 ∧
+    (tempoRun k c δ).1 ≤ (tempoRun (k + 1) c δ).1 := by
+  rw [tempoRun_closed _ _ _ hc, tempoRun_closed _ _ _ hc]
+  simp only [tempoStep, pow_shift]
+  have e : (k + 1) * (δ + 1) = k * (δ + 1) + δ + 1 := by rw [Nat.succ_mul]; omega
+  rw [e]
+  generalize k * (δ + 1) = m
+  omega
+
+/-- **Key-on and key-off in the right update (FM channel; partial: no slur in the track, any
+tempo as long as the tick count `n` of the update is given).**  Let an FM channel of the
+model be in good standing (no error, slur flag clear, no key-on pending) and related to the
+list machine `m` loaded with the rest of `perf` (`TickStream.Rel`, established at the start of
+the track by `TickStream.rel_init`).  One `MD_Channel::update(n)` — unless it ends in an error —
+leaves the channel related to the list machine `n` ticks later (so the statement applies to the
+next update again), writes only key-off and key-on words of this channel to register 0x28, and
+ * writes a key-off iff a note, rest or end of track (or a tie, which re-keys when an instrument
+   change is pending) is delivered in these `n` ticks;
+ * writes the key-on, as the LAST key write of the update, iff a note (or such a tie) is
+   delivered in these `n` ticks.
+Together with `C07_update_ticks` and `C07_play_step_grid` this places the key writes of the
+note starting at tick τ in the update `min {k | N_{k+1} > τ}` at sample `735·k`.  Extra
+hypotheses w.r.t. the full statement: no `SLUR` event in the track (with slurs the key-on of a
+slurred note is suppressed, which the schedule oracle checks); notes shorter than an update are
+allowed here (the key-on is then last, after the key-off — the `short-note` finding). -/
+theorem C07_key_frame_partial (d : Data) (song : Song) (root : List Event) (bank id : Nat)
+    (hid : id < 3) (hbank : bank < 2)
+    (hplain : TickStream.PlainCode song root)
+    (hnoslur : ∀ tr e, e ∈ codeOf song root tr → e.type ≠ ev_SLUR)
+    (cEnd : Player.Core) (n : Nat) (g : G) (c : Ch) (m : TickStream.LM)
+    (hc : ChOK root bank id c) (hg : g.err = none) (hkon : c.keyOn = false)
+    (hrel : TickStream.Rel song root cEnd ⟨c.ps.core, c.ps.acc⟩ m)
+    (hl : ∀ j, j < n → (TickStream.lmAfter (j + 1) m).live) :
+    (chUpdate d song n g c).1.err.isSome = true ∨
+      (TickStream.Rel song root cEnd ⟨(chUpdate d song n g c).2.1.ps.core, (chUpdate d song n g c).2.1.ps.acc⟩
+          (TickStream.lmAfter n m) ∧
+       ChOK root bank id (chUpdate d song n g c).2.1 ∧ (chUpdate d song n g c).2.1.keyOn = false ∧
+       (∀ x ∈ keys (chUpdate d song n g c).2.2, x = koff bank id ∨ x = kon bank id) ∧
+       ((∃ e ∈ (TickStream.lmRun n m).flatten, e.type = ev_NOTE ∨ e.type = ev_REST ∨ e.type = ev_END) →
+          koff bank id ∈ keys (chUpdate d song n g c).2.2) ∧
+       (koff bank id ∈ keys (chUpdate d song n g c).2.2 →
+          ∃ e ∈ (TickStream.lmRun n m).flatten, e.type = ev_NOTE ∨ e.type = ev_TIE ∨ e.type = ev_REST ∨ e.type = ev_END) ∧
+       ((∃ e ∈ (TickStream.lmRun n m).flatten, e.type = ev_NOTE) →
+          (keys (chUpdate d song n g c).2.2).getLast? = some (kon bank id)) ∧
+       (kon bank id ∈ keys (chUpdate d song n g c).2.2 →
+          ∃ e ∈ (TickStream.lmRun n m).flatten, e.type = ev_NOTE ∨ e.type = ev_TIE)) :=
+  chUpdate_keys d song root bank id hid hbank (TickStream.plainHooks_of song root hplain)
+    (TickStream.hooks_of song root (fun t => t ≠ ev_SLUR) (by decide) hnoslur) cEnd n g c m hc hg hkon hrel hl
+
+/-- the hypotheses of `C07_key_frame_partial` hold at the start of every FM track:
+`MD_FM`'s constructor leaves the channel in good standing with nothing pending -/
+theorem C07_key_frame_start (d : Data) (id : Nat) (root : List Event) (hid : id < 6) :
+    ChOK root (id / 3) (id % 3) (mkCh d id root).1 ∧ (mkCh d id root).1.keyOn = false ∧
+      (mkCh d id root).1.ps.core = ⟨.root, 0, []⟩ ∧ (mkCh d id root).1.ps.acc = {} := by
+  have hd : TickStream.drumOff
+      ({ trackState := ((List.replicate ev_CHANNEL_CMD_COUNT (0 : Int)).set (PlayerCh.chIdx ev_VOL_FINE) md_initial_vol).set
+          (PlayerCh.chIdx ev_PAN) md_initial_pan, mask := [PlayerCh.VOL_BIT] } : PlayerCh.Chan) := by
+    unfold TickStream.drumOff; decide
+  unfold mkCh
+  rw [if_pos hid]
+  exact ⟨⟨rfl, rfl, rfl, hd, rfl⟩, rfl, rfl, rfl⟩
 
 /-- **Tempo accumulator, closed form.**  `n` sequence updates at constant tempo `δ` from
 counter `c` play `(c + n(δ+1)) div 128` ticks and leave the counter `(c + n(δ+1)) mod 128`. -/
